@@ -49,7 +49,7 @@ Promotes(res, oth) ==
     /\ res.k # oth.k
     /\ IsComposed(res) /\ IsComposed(oth)
     /\ \/ (res.k = "dict" /\ IsFn(oth))                 \* plain dict replaces !call/!bind
-       \/ (res.k = "list" /\ oth.k = "path")            \* plain list replaces !path
+       \/ (res.k = "list" /\ oth.k \in {"path", "rec"})  \* plain list replaces !path / !rec
        \/ (res.k = "list" /\ IsFn(oth))                 \* plain list replaces !call/!bind
 Promote(res, oth) ==
     LET kw   == ChildKw([oth EXCEPT !.ch = <<>>])
